@@ -77,13 +77,19 @@ def sensitivity(ids):
         try:
             ap = subprocess.run(["git", "-C", wt, "apply", os.path.join(os.path.dirname(mp), "patch.diff")], capture_output=True, text=True)
             if ap.returncode:
+                ap = subprocess.run(["patch", "-p1", "-F3", "-s", "-i", os.path.abspath(os.path.join(os.path.dirname(mp), "patch.diff"))],
+                                    capture_output=True, text=True, cwd=wt)
+            if ap.returncode:
                 print(f"sensitivity {m['id']}: patch no longer applies to HEAD (skipped): {ap.stderr.strip()[:120]}")
                 continue
             env = dict(os.environ, BNPSIM_REPO=wt, VERIF_SEED=os.environ.get("VERIF_SEED", "0"))
-            p = subprocess.run([os.path.join(VERIF, "check"), m["breaks_property"], "quick"], capture_output=True, text=True, env=env, cwd=VERIF)
+            # the check of the property the change was seeded for, unless the filed record says another property's check is the
+            # one that catches it (a BAM change seeded under C04 is C16's business)
+            prop = m["breaks_property"] if m["breaks_property"] in (m.get("caught_by") or [m["breaks_property"]]) else m["caught_by"][0]
+            p = subprocess.run([os.path.join(VERIF, "check"), prop, "quick"], capture_output=True, text=True, env=env, cwd=VERIF)
             ok = p.returncode == 1 and "VIOLATION property=" in p.stdout
             classes = sorted(set(re.findall(r"class=\((.*?)\) seed", p.stdout)))[:2]
-            print(f"sensitivity {m['id']}: {'caught' if ok else 'MISSED (exit %d)' % p.returncode} by ./check {m['breaks_property']} quick {classes}")
+            print(f"sensitivity {m['id']}: {'caught' if ok else 'MISSED (exit %d)' % p.returncode} by ./check {prop} quick {classes}")
             bad += 0 if ok else 1
         finally:
             subprocess.run(["git", "-C", "/repo", "worktree", "remove", "--force", wt], capture_output=True)
